@@ -65,6 +65,11 @@ def len_of(I, v):
     if isinstance(v, (bytes, str, list, tuple, dict, set, frozenset, range, bytearray)):
         return len(v)
     if isinstance(v, SStr):
+        if I is not None and I.cfg.get("rope") and v.known_len is None:
+            from . import models_str as S
+            rp = S.rope_of(I, v)
+            if rp is not None:
+                return S.rope_len(I, rp)
         return sstr_len(v)
     if isinstance(v, SHash):
         return v.nbytes
@@ -471,7 +476,20 @@ def subscript(I, obj, idx):
     if isinstance(obj, dict):
         return ext().dict_get(I, obj, idx)
     if isinstance(obj, SStr):
-        n = sstr_len(obj)
+        n = len_of(I, obj)
+        if I.cfg.get("rope"):
+            from . import models_str as S
+            rp = S.rope_of(I, obj)
+            if rp is not None:
+                if isinstance(idx, slice) and idx.step in (None, 1):
+                    r = S.rope_slice(I, rp, 0 if idx.start is None else idx.start, n if idx.stop is None else idx.stop)
+                    if r is not None:
+                        return S.plain_or_sstr(z3.simplify(S.parts_term(r)), obj.is_bytes)
+                elif not isinstance(idx, slice):
+                    loc = S.rope_locate(I, rp, idx)
+                    if loc is not None and loc[0] < len(rp) and rp[loc[0]][0] == "lit":
+                        c = rp[loc[0]][1][loc[1]]
+                        return ord(c) if obj.is_bytes else c
         if isinstance(idx, slice):
             lo, hi = slice_bounds(I, idx, n)
             kl = (hi - lo) if isinstance(lo, int) and isinstance(hi, int) else None
